@@ -252,8 +252,9 @@ def _legacy11(shape: tuple):
     return _L11[shape]
 
 
-def _run(case: dict, sel: str):
-    """Construct the program under backend `sel`; -> list of Vars per op (tuple for multi-output)."""
+def _run(case: dict, sel: str, fault: Optional[str] = None):
+    """Construct the program under backend `sel` (optionally with EVERY backend call faulty: `fault` is a
+    `lib_vpprog.FAULT_KINDS` name); -> list of Vars per op (tuple for multi-output)."""
     import spox.opset.ai.onnx.v17 as op
     from spox import Tensor, argument
     from spox._public import initializer
@@ -261,9 +262,14 @@ def _run(case: dict, sel: str):
     from harness import lib_valueprop as L
 
     vals: list = []
+    import contextlib
+
+    from harness import lib_vpprog as P
+
+    sb = L.ScriptedBackend((lambda m: P.make_fault(fault, m, 0)) if fault else (lambda m: None), at="run")
     with warnings.catch_warnings():
         warnings.simplefilter("ignore")
-        with L.backend_setting(sel):
+        with L.backend_setting(sel), (sb.installed() if fault else contextlib.nullcontext()):
             for o in case["ops"]:
                 k = o["o"]
                 if k == "const":
@@ -298,12 +304,12 @@ def _run(case: dict, sel: str):
     return vals
 
 
-def _build(case: dict, sel: str):
+def _build(case: dict, sel: str, fault: Optional[str] = None):
     import spox
 
     from harness import lib_valueprop as L
 
-    vals = _run(case, sel)
+    vals = _run(case, sel, fault)
     ins = {name: vals[int(i)] for i, name in case["names"]["in"].items()}
     outs = {name: vals[int(i)] for i, name in case["names"]["out"].items()}
     with warnings.catch_warnings():
@@ -323,10 +329,19 @@ def check_mixed(case: dict, seed: int = 0) -> dict:
             res[sel] = ("ok", _build(case, sel))
         except Exception as e:  # noqa: BLE001
             res[sel] = ("raise", type(e).__name__, str(e)[:160])
+    # a backend that fails at EVERY call (exception / ill-typed results) leaves no value anywhere: the build must be
+    # the NONE build exactly
+    fault = case.get("fault")
+    if fault:
+        for sel in ("reference", "onnxruntime"):
+            try:
+                res[sel + "+" + fault] = ("ok", _build(case, sel, fault))
+            except Exception as e:  # noqa: BLE001
+                res[sel + "+" + fault] = ("raise", type(e).__name__, str(e)[:160])
     t = case.get("template", "?")
     base = res["none"]
     stats = {"built": int(base[0] == "ok"), "adapted": 0}
-    for sel in ("reference", "onnxruntime"):
+    for sel in [k for k in res if k != "none"]:
         r = res[sel]
         if r[0] != base[0]:
             if r[0] == "raise":
@@ -342,7 +357,7 @@ def check_mixed(case: dict, seed: int = 0) -> dict:
         out0 = P.ort_run(m0, feed)
     except Exception as e:  # noqa: BLE001
         return {"failures": fails, "stats": stats, "infra": f"ort failed on the NONE build: {type(e).__name__}: {str(e)[:120]}"}
-    for sel in ("reference", "onnxruntime"):
+    for sel in [k for k in res if k != "none"]:
         if res[sel][0] != "ok":
             continue
         m = res[sel][1]
